@@ -1,6 +1,7 @@
 import ServlinVerif.Props.C06
 import ServlinVerif.Props.C06RoundTrip
 import ServlinVerif.Props.C06Chunked
+import ServlinVerif.Props.CodeTables
 open Servlin.C06
 #print axioms C06_dup_refused
 #print axioms C06_head_shape
@@ -13,3 +14,5 @@ open Servlin.C06
 #print axioms decVal_decimal
 #print axioms C06_parses_back_chunked
 #print axioms parse_rendered_chunked
+#print axioms Servlin.CodeTables.reason_matches
+#print axioms Servlin.CodeTables.reason_complete
